@@ -51,7 +51,65 @@ def check_call(M, fq, call, callee):
                 other = M.bind_args(callee, call).get(a.id)
                 errs.append(f"argument `{a.id}` is bound to parameter `{p}` although the callee has a parameter `{a.id}`"
                             + (f" (which receives `{norm(other)}`)" if other is not None else "") + ": swapped arguments")
+    # kind conformance: a structure (an object the callee calls .get_*() / .wrap() / .copy() on) and a number or index are not interchangeable,
+    # nor are a cell matrix and a position array
+    if not errs:
+        pk = _param_kinds(M, callee)
+        for p, a in M.bind_args(callee, call).items():
+            ak = _arg_kind(M, fq, a)
+            if pk.get(p) and ak and pk[p] != ak and {pk[p], ak} in ({"ATOMS", "NUMBER"}, {"CELL", "POSITIONS"}, {"ATOMS", "CELL"}, {"ATOMS", "POSITIONS"}):
+                errs.append(f"parameter `{p}` is used as {_KIND_TEXT[pk[p]]} by {fn.name}() but receives `{norm(a)[:40]}`, {_KIND_TEXT[ak]}: swapped arguments")
     return errs
+
+
+_KIND_TEXT = {"ATOMS": "a structure (methods get_* / wrap / copy are called on it)", "NUMBER": "a number or index", "CELL": "a cell matrix", "POSITIONS": "an array of positions"}
+_ATOMS_METHODS = ("get_positions", "get_cell", "get_pbc", "get_atomic_numbers", "get_scaled_positions", "wrap", "get_chemical_symbols", "set_cell", "set_pbc", "repeat")
+
+
+def _param_kinds(M, callee):
+    fn = M.defs[callee]
+    out = {}
+    for p in M.params(callee):
+        uses = [x for x in ast.walk(fn) if isinstance(x, ast.Attribute) and isinstance(x.value, ast.Name) and x.value.id == p]
+        if any(u.attr in _ATOMS_METHODS for u in uses):
+            out[p] = "ATOMS"
+        elif p in ("cell",) or p.endswith("_cell") and not uses:
+            out[p] = "CELL"
+        elif p in ("positions", "scaled_positions", "pos", "cartesian_pos", "relative_pos", "rel_pos", "scaled_pos"):
+            out[p] = "POSITIONS"
+        elif p in ("axis", "threshold", "cluster_threshold", "bond_threshold", "cutoff", "min_size", "length", "tolerance", "pos_tol", "max_cell_size"):
+            out[p] = "NUMBER"
+    return out
+
+
+def _arg_kind(M, fq, a):
+    fn = M.defs.get(fq)
+    if fn is None:
+        return None
+    if isinstance(a, ast.Constant) and isinstance(a.value, (int, float)) and not isinstance(a.value, bool):
+        return "NUMBER"
+    if isinstance(a, ast.Attribute) and isinstance(a.value, ast.Name) and a.value.id == "self" and any(t in a.attr for t in ("threshold", "_tol", "tol_", "size", "cutoff", "coverage")):
+        return "NUMBER"
+    if isinstance(a, ast.Name):
+        nm = a.id
+        if any(isinstance(x, ast.Attribute) and isinstance(x.value, ast.Name) and x.value.id == nm and x.attr in _ATOMS_METHODS for x in ast.walk(fn)):
+            return "ATOMS"
+        for lp in ast.walk(fn):
+            if isinstance(lp, ast.For) and isinstance(lp.iter, ast.Call) and isinstance(lp.iter.func, ast.Name) and lp.iter.func.id == "range" \
+                    and any(isinstance(x, ast.Name) and x.id == nm for x in ast.walk(lp.target)):
+                return "NUMBER"
+            if isinstance(lp, (ast.ListComp, ast.GeneratorExp)):
+                for g in lp.generators:
+                    if isinstance(g.iter, ast.Call) and isinstance(g.iter.func, ast.Name) and g.iter.func.id == "range" and any(isinstance(x, ast.Name) and x.id == nm for x in ast.walk(g.target)):
+                        return "NUMBER"
+        defs = [s.value for s in ast.walk(fn) if isinstance(s, ast.Assign) and len(s.targets) == 1 and isinstance(s.targets[0], ast.Name) and s.targets[0].id == nm]
+        if defs and all(isinstance(v, ast.Call) and isinstance(v.func, ast.Attribute) and v.func.attr == "get_cell" for v in defs):
+            return "CELL"
+        if defs and all(isinstance(v, ast.Call) and isinstance(v.func, ast.Attribute) and v.func.attr in ("get_positions", "get_scaled_positions") for v in defs):
+            return "POSITIONS"
+        if defs and all(isinstance(v, ast.Constant) and isinstance(v.value, (int, float)) and not isinstance(v.value, bool) for v in defs):
+            return "NUMBER"
+    return None
 
 
 def run(rep, M, rid, scope=None):
